@@ -976,7 +976,38 @@ func runC12Cases(dir string, cases []c12Case, workers int) (map[int]c12Result, e
 				cmd := exec.Command(self, "c12worker", in, out, wdir)
 				var stderr bytes.Buffer
 				cmd.Stderr = &stderr
-				runErr := cmd.Run()
+				// a worker that produces no further result for two minutes hangs (a writer waiting for a connection or a
+				// lock it will never get): it is killed, and the case it was running is reported like a case that kills it
+				hung := false
+				runErr := cmd.Start()
+				if runErr == nil {
+					fin := make(chan error, 1)
+					go func() { fin <- cmd.Wait() }()
+					last, lastAt := int64(-1), time.Now()
+				wait:
+					for {
+						select {
+						case runErr = <-fin:
+							break wait
+						case <-time.After(2 * time.Second):
+							var sz int64
+							if st, err := os.Stat(out); err == nil {
+								sz = st.Size()
+							}
+							if sz != last {
+								last, lastAt = sz, time.Now()
+							} else if time.Since(lastAt) > 120*time.Second {
+								hung = true
+								_ = cmd.Process.Kill()
+								runErr = <-fin
+								break wait
+							}
+						}
+					}
+				}
+				if hung {
+					stderr.WriteString("\n[harness] no result for 120 s: the writer hangs; the worker was killed\n")
+				}
 				done := map[int]bool{}
 				if f, err := os.Open(out); err == nil {
 					sc := bufio.NewScanner(f)
